@@ -3,7 +3,8 @@
    (get_c, set_c, new_o: the content part of get_state / set_state / a fresh flow, for any flow
    type) under the contract get_c (set_c c o) = c, over a decidable content equality, and over
    arbitrary edit functions on the live content.  The model describes the REPAIRED modified
-   (fixes/C40-modified-ignores-embedded-backup.diff). *)
+   (fixes/C40-modified-ignores-embedded-backup.diff) and the REPAIRED copy
+   (fixes/C40-copy-backup-id.diff). *)
 From Coq Require Import List Bool NArith.
 From MV Require Import Base.Bytes Model.FlowBackup Proofs.FlowBackup.
 Import ListNotations.
@@ -100,17 +101,37 @@ Theorem C40_unrepaired_modified_constant :
 Proof. exact unrepaired_modified_constant. Qed.
 Print Assumptions C40_unrepaired_modified_constant.
 
-(* A copy has the id it was given (a fresh uuid4), equal content and an equal pending backup,
-   and is not live. *)
+(* A copy has the id it was given (a fresh uuid4), equal content and an equal pending backup
+   that carries the id of the copy, and is not live. *)
 Theorem C40_copy_spec :
   forall (Obj C : Type) (get_c : Obj -> C) (set_c : C -> Obj -> Obj) (new_o : Obj),
   (forall c o, get_c (set_c c o) = c) ->
   forall (nid : ident) (f : flow Obj C),
-  get_state Obj C get_c (copy Obj C get_c set_c new_o nid f) = St nid (get_c (fo f)) (fbackup f)
+  get_state Obj C get_c (copy Obj C get_c set_c new_o nid f) =
+    St nid (get_c (fo f)) (option_map (reid C nid) (fbackup f))
   /\ fid (copy Obj C get_c set_c new_o nid f) = nid
   /\ flive (copy Obj C get_c set_c new_o nid f) = false.
 Proof. exact copy_spec. Qed.
 Print Assumptions C40_copy_spec.
+
+(* Reverting a copy keeps the fresh id, whatever backup was pending in the original. *)
+Theorem C40_copy_revert_keeps_id :
+  forall (Obj C : Type) (get_c : Obj -> C) (set_c : C -> Obj -> Obj) (new_o : Obj),
+  (forall c o, get_c (set_c c o) = c) ->
+  forall (nid : ident) (f : flow Obj C),
+  fid (revert Obj C set_c (copy Obj C get_c set_c new_o nid f)) = nid.
+Proof. exact copy_revert_keeps_id. Qed.
+Print Assumptions C40_copy_revert_keeps_id.
+
+(* The defect that was repaired (finding copy-revert-restores-original-id): with the shipped copy,
+   backup / copy / revert-the-copy gave the copy the id of the original, for every flow. *)
+Theorem C40_unrepaired_copy_revert_collides :
+  forall (Obj C : Type) (get_c : Obj -> C) (set_c : C -> Obj -> Obj) (new_o : Obj)
+         (nid : ident) (f : flow Obj C),
+  fbackup f = None ->
+  fid (revert Obj C set_c (copy_unrepaired Obj C get_c set_c new_o nid (backup Obj C get_c f))) = fid f.
+Proof. exact unrepaired_copy_revert_collides. Qed.
+Print Assumptions C40_unrepaired_copy_revert_collides.
 
 (* Editing either one never changes the other: in a store of flows, over any history, a flow
    that no operation targets is unchanged, whatever is done to the other flows and however often
@@ -132,30 +153,27 @@ Theorem C40_copy_appends :
 Proof. exact step_copy. Qed.
 Print Assumptions C40_copy_appends.
 
-(* Does the fresh id stay fresh?  At full strength (every copy receives an unused id, any
-   history) NO -- known finding copy-revert-restores-original-id: backup flow 0, copy it, revert
-   the copy: the copy now has the id of flow 0 (stated at the token instance the correspondence
-   check runs). *)
-Theorem C40_ids_distinct_refuted :
-  exists (s : list tflow) (h : list (op N)),
-    NoDup (map fid s)
-    /\ hist_ok N N tget tset 0 (fun s o => fresh_op N N s o) s h
-    /\ ~ NoDup (map fid (run N N tget tset 0 s h)).
-Proof. exact ids_distinct_refuted. Qed.
-Print Assumptions C40_ids_distinct_refuted.
-
-(* Partial: the guard is exactly the complement of the finding -- no flow is reverted to a saved
-   state that carries another id (which only a copy made while a backup was pending has).  Then
-   ids stay pairwise distinct through every history. *)
-Theorem C40_ids_distinct_partial :
+(* The fresh id stays fresh: if every copy receives an unused id, ids stay pairwise distinct, and
+   every saved state keeps carrying the id of its own flow, through EVERY history of edits,
+   backups, reverts, reloads and copies, from any store in which that holds (in particular any
+   store of flows without a pending backup). *)
+Theorem C40_ids_distinct :
   forall (Obj C : Type) (get_c : Obj -> C) (set_c : C -> Obj -> Obj) (new_o : Obj),
   (forall c o, get_c (set_c c o) = c) ->
   forall (h : list (op Obj)) (s : list (flow Obj C)),
-  NoDup (map fid s) ->
-  hist_ok Obj C get_c set_c new_o (fun s0 o => fresh_op Obj C s0 o /\ guard_op Obj C s0 o) s h ->
-  NoDup (map fid (run Obj C get_c set_c new_o s h)).
-Proof. exact ids_distinct_partial. Qed.
-Print Assumptions C40_ids_distinct_partial.
+  NoDup (map fid s) -> Forall (own Obj C) s ->
+  hist_ok Obj C get_c set_c new_o (fresh_op Obj C) s h ->
+  NoDup (map fid (run Obj C get_c set_c new_o s h))
+  /\ Forall (own Obj C) (run Obj C get_c set_c new_o s h).
+Proof. exact ids_distinct. Qed.
+Print Assumptions C40_ids_distinct.
+
+(* The history of the former finding, at the token instance the correspondence check runs. *)
+Theorem C40_former_collision_distinct :
+  map fid (run N N tget tset 0 collide_store collide_hist) = [0; 1]
+  /\ fid (revert N N tset (copy_unrepaired N N tget tset 0 1 (backup N N tget (Flow 0 0 true None)))) = 0.
+Proof. exact collide_hist_now_distinct. Qed.
+Print Assumptions C40_former_collision_distinct.
 
 (* The contract is satisfiable (token instance) and the hypotheses of C40_revert_restores hold on
    a history that really edits: before the revert the state differs and modified is True, after
